@@ -1,5 +1,6 @@
 #!/bin/sh
 # usage: matrix.sh [ids...]  -- every seeded change against the quick check of its own property, 4 at a time
-cd /verif
+VH="$(cd "$(dirname "$0")/.." && pwd)"   # this copy of /verif (a vp-run snapshot works too)
+cd "$VH"
 IDS="${*:-$(ls seeded | grep -v _retired)}"
 for id in $IDS; do echo "$id ${id%_*}"; done | xargs -P4 -L1 sh -c 'tools/mutant_run.sh $0 $1' 2>&1 | grep "^=="
